@@ -594,7 +594,7 @@ fn closing_signature_spent_as_pay_token(c: &mut Ctx, m: &'static Merchant, m2: &
 }
 
 pub fn run(c: &mut Ctx) {
-    c.note("rule", json!("nonce generation under RNG streams that sample the close tag (32 tag bytes || 32 zero bytes) at every 64-byte draw of test_new_nonce / Requested::new (1-4 times in a row) and of Ready::start (quick: first draws and a spread; thorough: all), with the draw log proving the rejection path was taken; every nonce atom of every state of honest histories; pay token re-labelled as closing signature and closing signature re-labelled as pay token on every Ready state; channel id: identical inputs and exactly-one-input changes. Distinct = distinct (call, draw index, repetitions) injections consumed, distinct states and channel-id input sets."));
+    c.note("rule", json!("nonce generation under RNG streams that sample the close tag (32 tag bytes || 32 zero bytes) at every 64-byte draw of test_new_nonce / Requested::new (1-4 times in a row) and of Ready::start (quick: first draws and a spread; thorough: all), with the draw log proving the rejection path was taken; every nonce atom of every state of honest histories; pay token re-labelled as closing signature and closing signature re-labelled as pay token on every Ready state; channel id: identical inputs and exactly-one-input changes. Distinct = distinct (call, draw index, repetitions) injections consumed, distinct states and channel-id input sets. Added later: tag+q sample pattern, single key elements in the channel id, account infos up to 8 KiB with the last byte changed, a close-tag forger on the establish side and the closing signature spent as pay token on the pay side. Tag patterns for draws of any length; empty / whitespace / invalid-UTF-8 account infos; randomness + q."));
     let m = match fixtures::merchant(c.seed, "m0") {
         Ok(m) => m,
         Err(e) => return c.inconclusive(&e),
